@@ -354,6 +354,35 @@ func ServeGated(c *restful.Container, cfg *Cfg, r SReq, led *Ledger, g *Gate) (r
 	return serveImpl(c, cfg, r, led, false, g)
 }
 
+// failWriter is a client that went away: after `left` body bytes every Write fails.
+type failWriter struct {
+	http.ResponseWriter
+	left int
+}
+
+func (f *failWriter) Write(p []byte) (int, error) {
+	if len(p) <= f.left {
+		f.left -= len(p)
+		return f.ResponseWriter.Write(p)
+	}
+	n := f.left
+	f.left = 0
+	if n > 0 {
+		f.ResponseWriter.Write(p[:n])
+	}
+	return n, fmt.Errorf("verif: connection broken")
+}
+
+// ServeFailing serves r to a client whose connection breaks after `after` body bytes. The answer
+// is fault traffic: only what it leaves behind (ledger, container) is looked at.
+func ServeFailing(c *restful.Container, cfg *Cfg, r SReq, led *Ledger, after int) (res *Result) {
+	failAfter = after
+	defer func() { failAfter = -1 }()
+	return serveImpl(c, cfg, r, led, true, nil)
+}
+
+var failAfter = -1 // sequential use only
+
 func serveImpl(c *restful.Container, cfg *Cfg, r SReq, led *Ledger, sequential bool, gate *Gate) (res *Result) {
 	t := &trace{}
 	if sequential {
@@ -391,13 +420,17 @@ func serveImpl(c *restful.Container, cfg *Cfg, r SReq, led *Ledger, sequential b
 				res.Escaped = &s
 			}
 		}()
+		var w http.ResponseWriter = rec
+		if sequential && failAfter >= 0 {
+			w = &failWriter{ResponseWriter: rec, left: failAfter}
+		}
 		switch r.Entry {
 		case "dispatch":
-			c.Dispatch(rec, hr)
+			c.Dispatch(w, hr)
 		case "serveDispatch", "serveHandle", "serveHandleF":
-			c.ServeHTTP(rec, hr)
+			c.ServeHTTP(w, hr)
 		default:
-			c.ServeMux.ServeHTTP(rec, hr)
+			c.ServeMux.ServeHTTP(w, hr)
 		}
 	}()
 	a1, r1, d1 := led.Snapshot()
